@@ -289,6 +289,10 @@ func checkC08(c *ctx) {
 		c.Violation("C08 dictionary counts along a merge chain crossing a chunk-size boundary\n"+bad, false)
 		return
 	}
+	if bad := sharedBoundaryTerm(c); bad != "" {
+		c.Violation("C08 "+bad, false)
+		return
+	}
 	if bad := largeDictionary(c); bad != "" {
 		c.Violation("C08 dictionary enumeration on a large segment\n"+bad, false)
 		return
@@ -611,5 +615,91 @@ func boundaryChain(c *ctx) string {
 		curDrops = nil
 	}
 	c.Case("boundary-chain", true)
+	return ""
+}
+
+// sharedBoundaryTerm: two fields adjacent in field order (body, tag); the LAST term of body is also the
+// FIRST term of tag; it has 1100 postings in body and 4 in tag (documents at the far end); 1200
+// documents in two segments, merged, the result merged again (with and without a deletion).  Every
+// generation's dictionaries must report the counts the surviving documents dictate.
+func sharedBoundaryTerm(c *ctx) string {
+	mk := func(id string, from, to int) zh.Batch {
+		var b zh.Batch
+		for d := from; d < to; d++ {
+			doc := zh.Doc{Fields: []zh.Field{zh.IDField(fmt.Sprintf("%s%04d", id, d))}}
+			body := zh.Field{Name: "body", Len: 2, Toks: []zh.Tok{{Term: "a", Freq: 1}}}
+			if d < 1100 {
+				body.Toks = append(body.Toks, zh.Tok{Term: "m", Freq: 1})
+			}
+			doc.Fields = append(doc.Fields, body)
+			tag := zh.Field{Name: "tag", Len: 2, Toks: []zh.Tok{{Term: "z", Freq: 1}}}
+			if d >= 1196 {
+				tag.Toks = append(tag.Toks, zh.Tok{Term: "m", Freq: 1})
+			}
+			doc.Fields = append(doc.Fields, tag)
+			b = append(b, doc)
+		}
+		return b
+	}
+	e1, err := newBuilt(c, mk("s", 0, 600), 1026, false)
+	must(err)
+	e2, err := newBuilt(c, mk("s", 600, 1200), 1026, true)
+	must(err)
+	defer e1.close()
+	defer e2.close()
+	check := func(seg segment.Segment, spec sx.V, what string) string {
+		for _, field := range []string{"body", "tag"} {
+			var terms []string
+			want := map[string]uint64{}
+			for _, fd := range spec.L[pDicts].L {
+				if string(fd.L[0].B) == field {
+					for _, te := range fd.L[1].L {
+						terms = append(terms, string(te.L[0].B))
+						want[string(te.L[0].B)] = uint64(len(te.L[1].L))
+					}
+				}
+			}
+			obs, card, bad := dictObserve(seg, field, nil, nil, nil, terms)
+			if bad != "" {
+				return what + ", field " + field + ": " + bad
+			}
+			if card != len(terms) || len(obs.L) != len(terms) {
+				return fmt.Sprintf("%s: the dictionary of %s lists %d terms (Cardinality %d), the surviving documents have %d", what, field, len(obs.L), card, len(terms))
+			}
+			for _, e := range obs.L {
+				if t := string(e.L[0].B); e.L[1].N != want[t] {
+					return fmt.Sprintf("%s: %s/%q is reported with count %d, the surviving documents give %d", what, field, t, e.L[1].N, want[t])
+				}
+			}
+		}
+		return ""
+	}
+	mc := &mergeCase{ins: []*segEnt{e1, e2}, drops: [][]uint64{nil, nil}, nilBM: []bool{true, true}, mode: 1026}
+	spec, _ := specMerge(c, mc)
+	r := runMerge(c, mc)
+	if r.err != nil || r.seg == nil {
+		return fmt.Sprintf("merge failed: %v", r.err)
+	}
+	defer r.seg.Close()
+	what := "1200 documents in two segments; term m is the last term of body (1100 postings) and the first term of tag (4 postings, documents 1196..1199)"
+	if bad := check(r.seg, spec, what+"; first merge"); bad != "" {
+		return bad
+	}
+	m1 := &segEnt{seg: r.seg, spec: spec, n: spec.L[pNDocs].N, prov: "merged", depth: 1}
+	for _, dr := range [][]uint64{nil, {5}} {
+		mc2 := &mergeCase{ins: []*segEnt{m1}, drops: [][]uint64{dr}, nilBM: []bool{dr == nil}, mode: 1026}
+		spec2, _ := specMerge(c, mc2)
+		r2 := runMerge(c, mc2)
+		if r2.err != nil || r2.seg == nil {
+			return fmt.Sprintf("second-generation merge failed: %v", r2.err)
+		}
+		bad := check(r2.seg, spec2, fmt.Sprintf("%s; the merge output merged again (deletions %v)", what, dr))
+		r2.seg.Close()
+		if bad != "" {
+			return bad
+		}
+		c.Count("shared_boundary_term_generations")
+	}
+	c.Case("shared-boundary-term", true)
 	return ""
 }
